@@ -98,6 +98,18 @@ var c09Addrs = []addrSpec{
 	{"/ip4/8.8.8.8/tcp/80/http/ip4/127.0.0.1/tcp/81", false},
 	{"/http/dns4/localhost/tcp/80", false},
 	{"/http/ip4/8.8.4.4/tcp/3104", true},
+	// host and port in one DNS component (the URL built from the address
+	// dials it as such), and spellings that an HTTP client maps to the
+	// loopback name or to an IP literal before it dials: full-width letters
+	// and digits, ideographic full stops
+	{"/dns/localhost:8080/http", false},
+	{"/dns4/127.0.0.1:8080/http", false},
+	{"/dns6/[::1]:8080/http", false},
+	{"/dns4/10.0.0.1:8080/http", false},
+	{"/dns/\uff4cocalhost/tcp/80/http", false},
+	{"/dns4/\uff11\uff12\uff17.0.0.1/tcp/80/http", false},
+	{"/dns4/127\u30020\u30020\u30021/tcp/80/http", false},
+	{"/dns/indexer_1.example-net.org/tcp/80/http", true},
 }
 
 type c09Sent struct {
